@@ -81,6 +81,49 @@ func runC01Ill(c *Ctx, run func(class, src string, in []fhir.Resource)) {
 			}
 		}
 	}
+	// custom functions with typed parameters x arguments of every System type (an argument of another type is an
+	// error, never a crash)
+	{
+		in := []fhir.Resource{&ppb.Patient{Id: &dtpb.Id{Value: "p"}}}
+		fns := map[string]any{
+			"pStr":  func(c system.Collection, s system.String) (system.Collection, error) { return system.Collection{s}, nil },
+			"pInt":  func(c system.Collection, i system.Integer) (system.Collection, error) { return system.Collection{i}, nil },
+			"pBool": func(c system.Collection, b system.Boolean) (system.Collection, error) { return system.Collection{b}, nil },
+			"pDec":  func(c system.Collection, d system.Decimal) (system.Collection, error) { return system.Collection{d}, nil },
+			"pDate": func(c system.Collection, d system.Date) (system.Collection, error) { return system.Collection{d}, nil },
+			"pQty":  func(c system.Collection, q system.Quantity) (system.Collection, error) { return system.Collection{q}, nil },
+			"pAny":  func(c system.Collection, a system.Any) (system.Collection, error) { return system.Collection{a}, nil },
+			"pColl": func(c system.Collection, a system.Collection) (system.Collection, error) { return a, nil },
+			"pTwo":  func(c system.Collection, s system.String, i system.Integer) (system.Collection, error) { return system.Collection{s, i}, nil },
+		}
+		var fnames []string
+		for n := range fns {
+			fnames = append(fnames, n)
+		}
+		sort.Strings(fnames)
+		args := []string{"1", "'s'", "true", "1.5", "@2020-01-01", "@2020-01-01T10:00:00Z", "@T10:00", "1 'mg'", "{}", "Patient.id", "Patient", "(1 | 2)", "%nope", "2147483647", "-1", "''"}
+		for _, fn := range fnames {
+			for _, a := range args {
+				for _, b := range []string{"", ", 1", ", 's'"} {
+					if (b != "") != (fn == "pTwo") {
+						continue
+					}
+					src := "Patient." + fn + "(" + a + b + ")"
+					var e *fhirpath.Expression
+					var cerr error
+					_, pan, msg := safeErr(func() error { e, cerr = fhirpath.Compile(src, fhirpath.WithFunction(fn, fns[fn])); return nil })
+					c.Observe("custom-typed "+src, false)
+					c.Law(!pan, "C01/compile-panic", "Compile returns an expression or an error", src, msg)
+					if pan || cerr != nil {
+						continue
+					}
+					o := safeEval(func() (system.Collection, error) { return e.Evaluate(in) })
+					c.Law(!o.Panicked, "C01/evaluate-panic", "Evaluate returns a collection or an error", src+" (custom function with a typed parameter)", o.PanicMsg)
+					c.Law(!o.TimedOut, "C01/evaluate-hang", "Evaluate terminates", src, "no result within the budget")
+				}
+			}
+		}
+	}
 	res, paths := illFormed()
 	var names []string
 	for n := range res {
